@@ -76,6 +76,22 @@ CLAIMS = {
         technique="Lean 4 proof (layered refinement encoder -> format decoder) + byte-level differential "
                   "correspondence",
         ref="DESIGN.md §6 C02"),
+    "C10": dict(
+        text="Lean 4 theorems over a model of decode_chunk_into in which every primitive's failure mode is "
+             "explicit (struct.unpack_from on short buffers, Python slicing with clamping, np.frombuffer size "
+             "checks, fancy-index IndexError): for EVERY byte string, shape and block size the result is an "
+             "array with exactly the requested number of voxels or InvalidFormatError, never another "
+             "exception (cseg_decoder_total, incl. the Int-arithmetic lemma that the LUT slice is always "
+             "item-aligned); raw decoder accepts exactly the right length; the JPEG wrapper returns the right "
+             "size or the documented error for every behaviour of PIL. All model functions are total "
+             "(no hang). Tie: outcome class and decoded arrays of the real decoders vs the models on "
+             "thousands of malformed inputs (all truncations, byte flips, targeted header edits) and on "
+             "valid files written by an independent encoder (valid data never rejected).",
+        note="Trusted: Lean kernel; standard axioms; hand-written decoder model (tie = mutation-based "
+             "sampling); PIL observed per input, not modelled; struct/numpy primitive semantics as modelled.",
+        technique="Lean 4 proof (totality / error-class analysis of the decoder model) + mutation-based "
+                  "differential correspondence",
+        ref="DESIGN.md §6 C10"),
 }
 
 ALL = ["C%02d" % i for i in range(1, 21)]
